@@ -827,7 +827,7 @@ theorem convert_simple_exact (hσ : ∀ k, σ k ≠ 0) {K : List Dim} (hK : Keys
       FactorOK K c.st f ∧ f.1 < c.st.units.length ∧ unitSz σ c.st f.1 = σ f.1)
     (hspec : matchSpec (splat c.st t).byComplexFirst (splat c.st q.unit) (splat c.st t) [] = some ([], [], plan))
     (h : CM.exec (convert q t) c = (.ok r, c')) :
-    r.unit = t ∧ r.mag.val * unitSz σ c.st t = q.mag.val * unitSz σ c.st q.unit := by
+    r.unit = t ∧ r.mag.val * unitSz σ c.st t = q.mag.val * unitSz σ c.st q.unit ∧ GraphOK σ c' ∧ CFrame c c' := by
   have hdqt : c.st.dimOfUnit q.unit = c.st.dimOfUnit t := by
     by_contra hne
     have hbne : (c.st.dimOfUnit q.unit != c.st.dimOfUnit t) = true := by simpa using hne
@@ -909,6 +909,7 @@ theorem convert_simple_exact (hσ : ∀ k, σ k ≠ 0) {K : List Dim} (hK : Keys
         exact ⟨hone2, hone2⟩
     obtain ⟨g3, f3, hall⟩ := inlinePaths_sound _ c2 c' P g2 (by rw [fab2.offsets]; exact hoff) hvalid hp
     obtain ⟨hPV, hPoff⟩ := planValue_of_steps hσ g2.canon hall (fun x hx => (hvalid x hx).2)
+    refine ⟨?_, g3, fab2.trans f3⟩
     rw [hval, applyPlanV_offsetFree P hPoff, hPV]
     -- the product over the steps
     have hstep : ∀ x ∈ plan, (unitSz σ c2.st x.start / unitSz σ c2.st x.stop) = z x.start / z x.stop := by
@@ -976,6 +977,6 @@ theorem convert_simple_exact (hσ : ∀ k, σ k ≠ 0) {K : List Dim} (hK : Keys
     rw [hfp0] at hfp'
     simp only [Prod.mk.injEq, Except.ok.injEq] at hfp'
     obtain ⟨rfl, rfl⟩ := hfp'
-    exact (hd' hp0).1
+    exact hd' hp0
 
 end Measured
